@@ -93,6 +93,9 @@ def cases(tier, seed, i, n):
                                 # compressed connection; sends after close() are refused (and with 'every' there are plenty)
                                 yield dict(pre=pre, sc=sc, end=end, at=at, args=APP_CLOSE_ARGS[k % len(APP_CLOSE_ARGS)],
                                            sends=sends, ct=None, seg=('coalesced', 'perframe')[k % 2], z=True)
+                            if len(pre) <= 1 and sends == 'none' and k % 8 == 1:
+                                yield dict(pre=pre, sc=sc, end=end, at=at, args=APP_CLOSE_ARGS[k % len(APP_CLOSE_ARGS)],
+                                           sends=sends, ct=None, seg='coalesced', logship=True)
                             if len(pre) <= 1 and at == 'never' and sc.startswith('first') and sends in ('every', 'none'):
                                 # the application takes 1.5 poll intervals to handle Closing: nothing - no Poll at
                                 # which it could still send, no timeout - comes between that event and the echo
@@ -199,6 +202,48 @@ def run_case(case, acc):
     ckw = dict(ping_rate=0, poll=1.0, close_timeout=ct)
     if case.get('pt'):
         ckw.update(ping_rate=1.0, ping_timeout=case['pt'])
+    ship = None
+    if case.get('logship'):
+        # the application ships the library's log records to the server over this very websocket (a logging.Handler
+        # on the 'lomond' logger that calls send_text): whatever the library logs, and wherever, the closing handshake
+        # stays intact
+        import logging
+        holder = {}
+
+        class Ship(logging.Handler):
+            busy = False
+
+            def emit(self, record):
+                ws_ = holder.get('ws')
+                if ws_ is None or Ship.busy:
+                    return
+                Ship.busy = True
+                try:
+                    ws_.send_text('LOG ' + record.getMessage()[:60])
+                except Exception:   # noqa
+                    pass
+                finally:
+                    Ship.busy = False
+
+        ship = Ship()
+        ship.createLock = lambda: None
+        ship.lock = None
+        lg = logging.getLogger('lomond')
+        old_level = lg.level
+        lg.addHandler(ship)
+        lg.setLevel(logging.DEBUG)
+        inner_table = H.TablePolicy(table)
+
+        def shipping_policy(ws_, ev, idx, run_):
+            holder['ws'] = ws_
+            inner_table(ws_, ev, idx, run_)
+        try:
+            run = H.drive(w, ws=ws0, connect_kwargs=ckw, policy=shipping_policy, companion=False)
+        finally:
+            lg.removeHandler(ship)
+            lg.setLevel(old_level)
+        acc.count2('oracle', 'log_shipping_runs')
+        return judge_logship(case, run, w, acc)
     run = H.drive(w, ws=ws0, ws_kwargs=dict(compress=True) if case.get('z') else None, connect_kwargs=ckw, policy=H.TablePolicy(table))
     if case.get('slow'):
         acc.count2('oracle', 'slow_handler_runs')
@@ -207,6 +252,25 @@ def run_case(case, acc):
     if case.get('shut'):
         acc.count2('oracle', 'runs_with_failing_shutdown')
     judge(case, run, w, truth, between, scode, sreason, acc)
+
+
+def judge_logship(case, run, w, acc):
+    """only the wire discipline is judged (the shipped records are application sends at unpredictable places)"""
+    names = run.names
+    key = monitors.grammar_violation(names, run.end == 'stop') or monitors.run_end_violation(run, w)
+    if key == 'INCONCLUSIVE-budget':
+        acc.inconclusive.append('budget: %r' % (case,))
+        return
+    reqs, frames, residue, errors = H.client_frames(w.conns[0]) if w.conns else ([], [], b'', [])
+    if key is None and (residue or errors):
+        key = 'client-wrote-garbage'
+    if key is None:
+        key = monitors.close_discipline(frames)
+    if key:
+        acc.violation(key + ':log-records-shipped-over-the-websocket', 'C08 %s' % key, case,
+                      dict(frames=[(f['opcode'], f['payload'][:30]) for f in frames], events=[n for n in names if n != 'poll']))
+    else:
+        acc.cls('logship|%s|%s' % ('>'.join(n for n in names if n != 'poll'), case['sc'] + '/' + case['at']))
 
 
 def judge_close_write_fault(case, run, w, acc):
